@@ -924,6 +924,7 @@ func (b *BaseStore) AddOperation(ctx context.Context, op operation.Operation, on
 	if err != nil {
 		return nil, err
 	}
+	verifhook.Point("store.before_write_event", b.id)
 
 	if err := b.emitters.evtWrite.Emit(stores.NewEventWrite(b.Address(), e, oplog.Heads().Slice())); err != nil {
 		b.logger.Warn("unable to emit event write", zap.Error(err))
@@ -1088,12 +1089,14 @@ func (b *BaseStore) replicationLoadComplete(ctx context.Context, logs []ipfslog.
 
 		entries = append(entries, log.GetEntries().Slice()...)
 	}
+	verifhook.Point("store.merge_joined", b.id)
 
 	err := b.updateIndex(ctx)
 	if err != nil {
 		b.Logger().Error("unable to update index", zap.Error(err))
 		return
 	}
+	verifhook.Point("store.merge_indexed", b.id)
 
 	// only store heads that has been verified and merges
 	heads := oplog.Heads()
@@ -1109,6 +1112,7 @@ func (b *BaseStore) replicationLoadComplete(ctx context.Context, logs []ipfslog.
 		b.Logger().Error("unable to update heads cache", zap.Error(err))
 		return
 	}
+	verifhook.Point("store.merge_persisted", b.id)
 
 	if oplog.Len() > b.replicationStatus.GetProgress() {
 		b.recalculateReplicationStatus(oplog.Len())
